@@ -802,8 +802,14 @@ fn filter_binding(report: &Report) {
     let fmts = ["%Y-%m-%d %H:%M:%S %z", "%j|%U|%W|%V|%G", "%a %b %e %l %p", "%L.%N", "%c", "%q%é", "%"];
     let mut n = 0u64;
     for (i, ts) in grid.iter().enumerate().step_by(step) {
+        // a grid timestamp the parser rejects cannot be passed as a date-time value; format_grid
+        // has already reported it (C17|parse|default-form-rejected); the string form is still run
+        let parses = DateTime::from_str(&ts.display()).is_some();
         for f in fmts {
             for as_string in [false, true] {
+                if !as_string && !parses {
+                    continue;
+                }
                 let data = V::obj(&[("ts", if as_string { V::s(&ts.display()) } else { V::DateTime(ts.display()) }), ("f", V::s(f))]);
                 n += 1;
                 report.eval();
@@ -825,7 +831,7 @@ fn filter_binding(report: &Report) {
                     );
                 }
                 // date_in_tz: same instant shifted to whole-hour zones
-                if f.starts_with("%Y") {
+                if f.starts_with("%Y") && parses {
                     for tz in [-11i64, 0, 9] {
                         let data = V::obj(&[("ts", V::DateTime(ts.display())), ("f", V::s("%s")), ("tz", V::Int(tz))]);
                         n += 1;
